@@ -78,7 +78,12 @@ def direct_session(R, hist, mini, multi, shape, repkind):
             # re-present already evaluated individuals in between (elitism / selection do this)
             for _ in range(R.randint(1, 2)):
                 batch.insert(R.randint(0, len(batch)), R.choice(presented))
+        if shape == "mixed" and R.random() < 0.5:
+            # evaluate one member through the evaluator BEFORE the tracker sees it (selection steps do this)
+            tracker.evaluator.evaluate(problem, [R.choice(batch)])
+        events.append({"e": "present", "ids": [ids.of(x) for x in batch]})
         tracker.evaluate(batch)
+        events.append({"e": "endpresent", "ids": [ids.of(x) for x in batch]})
         presented += [x for x in batch if x not in presented]
     return events, base_cfg(mini, multi, "direct")
 
@@ -157,6 +162,9 @@ def evaluator_sessions(R, batch, tier, stats):
         def ff(prog, logpath=logpath, tab=tab, multi=multi):
             v = prog_value(prog)
             ret = tab[v % len(tab)]
+            # a value-dependent delay perturbs the completion order of pool workers
+            import time as _t
+            _t.sleep(0.03 * ((7 - v) % 4))
             with open(logpath, "a") as f:
                 f.write(json.dumps({"v": v, "ret": ret, "pid": os.getpid()}) + "\n")
             return [float(x) for x in ret] if multi else float(ret[0])
@@ -259,6 +267,8 @@ def main():
         h = R.choice(H2 if multi else H1)
         h = [h[R.randrange(len(h))] for _ in range(R.randint(3, 9))] if R.random() < 0.5 else h
         mode = "scripted" if ri % 3 else "table"
+        if mode == "table" and not multi:
+            h = [[x] for x in (5, 1, 9, 3, 11, 7, 2, 12, 4, 10, 6, 8)]
         bk = "eval" if multi else ["eval", "eval", "target", "anyof"][ri % 4 if ri % 8 < 4 else 0]
         n = R.randint(1, 12 if quick else 40)
         target = R.choice([1, 2, 3]) if bk != "eval" else None
@@ -269,7 +279,7 @@ def main():
             target = min(vals) if mini[0] else max(vals)
             mode = "scripted"
         ev, cfg = algorithm_run(R, alg, h, mode, mini, multi, bk, n, "tree" if ri % 3 else "ge",
-                                gp_step=steps[ri % len(steps)], pop=R.choice([2, 3, 4, 5, 8]), k=R.choice([1, 3, 5]),
+                                gp_step=steps[(ri // 4) % len(steps)], pop=R.choice([2, 3, 4, 5, 8]), k=R.choice([1, 3, 5]),
                                 target=target)
         batch.trace(f"run/{ri}/{alg}/{bk}/{cfg['step']}", ev, cfg)
         stats["events"] += len(ev)
